@@ -221,7 +221,7 @@ fn c17_bare(_ctx: &Ctx, r: &mut Report) {
 }
 
 fn c17_order(ctx: &Ctx, r: &mut Report) {
-    let max = if ctx.tier == Tier::Thorough { 4 } else { 3 };
+    let max = if ctx.tier == Tier::Thorough { 6 } else { 3 };
     r.domain = "all subsets of size <= bound of {no_deps, export, mock_api=TrMock, unimock, mockall=false, ?Send} (fn, mod) / {mock_api, unimock, mockall, ?Send, delegate_by=ref} (trait), all orderings".into();
     r.bound = format!("subset size <= {}", max);
     for mode in [Mode::Fn, Mode::Mod, Mode::Trait] {
